@@ -322,18 +322,25 @@ class Session:
             o['idescr'] = {'k': 'bad', 'why': why} if why else {'k': 'ok', 'len': i.shape[0]}
         o['irows'] = None
         o['itail_bytes'] = -1
-        if i.has_data and i.dproblem is None:
+        if i.has_data:
+            # decoded with the REQUESTED index type, whatever state the descriptor is in
             try:
-                els = i.elements()
-                nrow = len(els) // 2
+                raw = i.raw()
+                code = disk.TYPES[rc.indextype][0]
+                isz = idt.itemsize
+                nrow = len(raw) // (2 * isz)
+                ibo = '<'
+                if i.dproblem is None and i.byteorder == 'big':
+                    ibo = '>'
+                els = struct.unpack(ibo + str(2 * nrow) + code, raw[:nrow * 2 * isz])
                 rows = []
                 for k in range(nrow):
-                    s, e = els[2 * k], els[2 * k + 1]
-                    rows.append((s // B if s % B == 0 else GARBAGE, e // B if e % B == 0 else GARBAGE))
+                    s_, e_ = els[2 * k], els[2 * k + 1]
+                    rows.append((s_ // B if s_ % B == 0 else GARBAGE, e_ // B if e_ % B == 0 else GARBAGE))
                 o['irows'] = tuple(rows)
                 o['irows_real'] = tuple((els[2 * k], els[2 * k + 1]) for k in range(nrow))
-                o['itail_bytes'] = i.datasize - nrow * 2 * i.itemsize
-                o['isize'] = i.datasize
+                o['itail_bytes'] = len(raw) - nrow * 2 * isz
+                o['isize'] = len(raw)
             except Exception as e:
                 o['irows_error'] = repr(e)
         o['ireadme'] = self._readme_stamp(i, rc.indextype, i.byteorder if i.dproblem is None else None, (2,),
